@@ -227,6 +227,40 @@ void sbin(Rng& rng)
     }
 }
 
+// elastic_scaled_integer meeting a cnl::constant<V> operand on either side (from_value<scaled_integer<...>, constant<V>>,
+// scaled_integer/num_traits.h).  OPS: 1 = `*`, 2 = `+ -`, 4 = `/` (the generator leaves out what cannot be instantiated)
+template<int LD, class LN, int LE, I V, int OPS>
+void sconst(Rng& rng)
+{
+    using E = elastic_integer<LD, LN>;
+    using A = scaled_integer<E, power<LE>>;
+    using AR = _impl::rep_of_t<E>;
+    constexpr constant<V> c{};
+#define CHEAD(NAME, SIDE) \
+    printf("C05 sconst " NAME " " SIDE " %d %s %d ", LD, tn<LN>().c_str(), LE); \
+    pri(V); \
+    putchar(' '); \
+    pri(l); \
+    fputs(" => ", stdout);
+    for (I l : evals<LD, LN>(rng)) {
+        A a = _impl::from_rep<A>(_impl::from_rep<E>(AR(l)));
+        if constexpr ((OPS & 1) != 0) {
+            { CHEAD("mul", "r") VH_RUN(a * c, print_es) }
+            { CHEAD("mul", "l") VH_RUN(c * a, print_es) }
+        }
+        if constexpr ((OPS & 2) != 0) {
+            { CHEAD("add", "r") VH_RUN(a + c, print_es) }
+            { CHEAD("add", "l") VH_RUN(c + a, print_es) }
+            { CHEAD("sub", "r") VH_RUN(a - c, print_es) }
+            { CHEAD("sub", "l") VH_RUN(c - a, print_es) }
+        }
+        if constexpr ((OPS & 4) != 0) {
+            { CHEAD("div", "r") VH_RUN(a / c, print_es) }
+            { CHEAD("div", "l") VH_RUN(c / a, print_es) }
+        }
+    }
+}
+
 template<int LD, class LN, int K>
 void scaledn(Rng& rng)
 {
